@@ -208,6 +208,14 @@ impl ElfProbe {
                 if exp == ElfClass::Unused {
                     return Err("unused/unknown section type yielded");
                 }
+                // "matches the documented values": the symbolic type's number is the raw
+                // value for the twelve specified types and the start of the range for the
+                // two reserved ranges (ELF: SHT_LOOS, SHT_LOPROC)
+                let num = s.section_type() as u32;
+                let want = if x <= 11 { x } else if x < 0x7000_0000 { 0x6000_0000 } else { 0x7000_0000 };
+                if lib_class(s.section_type()) == exp && num != want {
+                    return Err("numeric value of the symbolic section type != documented value");
+                }
                 if lib_class(s.section_type()) != exp {
                     return Err("section_type() != documented class");
                 }
